@@ -14,7 +14,8 @@ Request:  `run <fixed:0|1> <clock> <cands> <init> <progs> <sched>`
          `d/<id>/<allowMissing>/<expect>/<check>`
          id `g` = empty id + WithGenIDIfAbsent; expect `-` or `a.b`; check `n` | `eq<k>` | `ne<k>` on field a
          (fails with OutOfRange); f `s<a>.<b>` (write a.b) | `a<k>` | `b<k>` (interceptor: field += k);
-         mask `-` (none) | `a` | `b` | `ab`; writeTime `-` or a number
+         mask `-` (none) | `a` | `b` | `ab`, followed by `+` when an InterceptAfter sets field b of the result
+         to the old b + 1; writeTime `-` or a number
 * sched  `-` or comma separated thread ids; one entry = one atomic step of that thread
 
 Answer: `T0=[r,r,...]|T1=[...]|store=id:a.b@t,...|log=<n>|pc=<per thread i/c/m/d>|rng=<n>` with
@@ -77,11 +78,17 @@ def parseWritten? (s : String) : Option (P → P) :=
   else none
 
 /-- `FieldUpdater.Merge` under the update mask: masked fields come from the written message, the others stay -/
-def parseMask? (s : String) : Option (P → P → P) :=
+def parseMask1? (s : String) : Option (P → P → P) :=
   if s = "-" || s = "ab" then some (fun _ v => v)
   else if s = "a" then some (fun o v => ⟨v.a, o.b⟩)
   else if s = "b" then some (fun o v => ⟨o.a, v.b⟩)
   else none
+
+/-- …followed by `interceptAfter(old, dst)` -/
+def parseMask? (s : String) : Option (P → P → P) :=
+  if s.endsWith "+" then
+    (parseMask1? (s.dropEnd 1).toString).map (fun m => fun o v => ⟨(m o v).a, o.b + 1⟩)
+  else parseMask1? s
 
 def parseOp? (s : String) : Option (Op P) :=
   match s.splitOn "/" with
